@@ -25,7 +25,7 @@ PROP = "C38"
 READY = True
 DRIVER = "dm_dfpart"
 LEAN_MODULES = ["DaskModel.Props.C38"]
-TABLES = ["GroupbyAggs"]
+TABLES = ["GroupbyAggs", "GroupbyCums"]
 CASE_TIMEOUT_S = 90
 ASSUMPTIONS = ["pandas groupby kernels on one partition (chunk) and on the concatenated partials (combine/aggregate) are the "
                "oracle-checked atoms; the model fixes only their algebra (what is folded, in which order)",
@@ -285,15 +285,15 @@ def case_agg_model(ctx, inp):
     for row in model:
         k = row[0]
         if agg == "mean":
-            mm[k] = None if row[1] == "none" or row[2] == 0 else row[1] / row[2]
+            mm[k] = None if row[1] is None or row[2] == 0 else row[1] / row[2]
         elif agg == "var":
-            if row[1] == "none" or row[1] < 2:
+            if row[1] is None or row[1] < 2:
                 mm[k] = None
             else:
                 c, s, q = row[1], row[2], row[3]
                 mm[k] = (q - s * s / c) / (c - 1)
         else:
-            mm[k] = None if row[1] == "none" else row[1]
+            mm[k] = row[1]
     gg = {int(k): (None if v != v else float(v)) for k, v in got.items()}
     if sig is None:
         bad = [k for k in mm if (gg.get(k) is None) != (mm[k] is None)
@@ -438,6 +438,58 @@ def _run_misc(d, df, op, inp, kw, gkw, method=None):
     raise ValueError(op)
 
 
+def _lean_parts(df, cuts, col="a"):
+    return [[[int(k), Sym("none") if v != v else int(v)] for k, v in zip(df.c.iloc[a:b], df[col].iloc[a:b])]
+            for a, b in zip(cuts, cuts[1:])]
+
+
+def _lean_nunique(ctx, inp, df, got, exp):
+    """NUnique (drop_duplicates chunk, unique().explode() tree, counting aggregate) in Lean vs dask vs pandas"""
+    rows = ctx.lean(Sym("groupby-nunique"), inp.get("split_every") or 8, _lean_parts(df, inp["cuts"]))
+    model = {r[0]: r[1] for r in rows}
+    spec = {r[0]: r[2] for r in rows}
+    ctx.eq("nunique: Lean tree model vs Lean specification", spec, model)
+    ctx.eq("nunique: Lean model vs dask", model, {int(k): int(v) for k, v in got.items()})
+    ctx.eq("nunique: Lean specification vs pandas", spec, {int(k): int(v) for k, v in exp.items()})
+
+
+def _lean_cumulative(ctx, inp, df, got, exp, op):
+    """GroupByCumulativeFinalizer (cum_raw, cum_last, _cum_agg_filled, _cum_agg_aligned) in Lean vs dask vs pandas"""
+    name = {"cumsum": "sum", "cumprod": "prod", "cumcount": "count"}[op]
+    dask_cells, global_cells = ctx.lean(Sym("groupby-cum"), Sym(name), _lean_parts(df, inp["cuts"]))
+
+    def cells(x):
+        return [None if v != v else float(v) for v in x.sort_index(kind="stable").tolist()]
+
+    def same(model, real):
+        return len(model) == len(real) and all(
+            (m is None) == (r is None) and (r is None or _close(float(m), r)) for m, r in zip(model, real))
+    if not same(dask_cells, cells(got)):
+        ctx.disagree(f"{op}: Lean model of the finalizer vs dask", dask_cells, cells(got))
+    if not same(global_cells, cells(exp)):
+        ctx.disagree(f"{op}: Lean whole-frame scan vs pandas", global_cells, cells(exp))
+    if len(inp["cuts"]) > 3:
+        ctx.branch(f"lean-{op}-carried-over->=2-partitions")
+
+
+def _lean_idx(ctx, inp, df, fn, col, got, exp):
+    """IdxMin/IdxMax as they are (chunk idxmin, aggregate first) and the arg-min specification in Lean"""
+    scale = 2 if col == "b" else 1          # column b holds multiples of 0.5
+    parts = [[[int(k), Sym("none") if v != v else int(round(v * scale)), int(lab)]
+              for k, v, lab in zip(df.c.iloc[a:b], df[col].iloc[a:b], df.index[a:b])]
+             for a, b in zip(inp["cuts"], inp["cuts"][1:])]
+    rows = ctx.lean(Sym("groupby-idx"), Sym(fn[3:]), 8, parts)
+    current = {r[0]: r[1] for r in rows if r[1] is not None}
+    spec = {r[0]: r[2] for r in rows if r[2] is not None}
+    ctx.eq(f"{fn}: Lean arg-{fn[3:]} specification vs pandas (labels, first occurrence on ties)", spec,
+           {int(k): int(v) for k, v in exp.items() if v == v})
+    if got is not None and not _multi_out(inp):
+        ctx.eq(f"{fn}: Lean model of (chunk {fn}, aggregate first) vs dask", current,
+               {int(k): int(v) for k, v in got.items() if v == v})
+    if current != spec:
+        ctx.branch(f"lean-{fn}-first-partial-differs-from-arg{fn[3:]}")
+
+
 def _case_idx(ctx, inp, d, df, op, kw, gkw):
     """idxmin / idxmax of column b (no missing values) or a (missing values): the label of a row holding the extreme"""
     import dask
@@ -463,7 +515,11 @@ def _case_idx(ctx, inp, d, df, op, kw, gkw):
                 if len(part) and (part.groupby("c", dropna=False, observed=True)[col].count() == 0).any():
                     sig = SIG_IDX_NA
         ctx.fail(f"groupby {fn}({col}) raised: " + U.exc_name(e), sig=sig, observed=U.exc_name(e))
+        if inp.get("keykind", "int") == "int":
+            _lean_idx(ctx, inp, df, fn, col, None, exp)
         return
+    if inp.get("keykind", "int") == "int":
+        _lean_idx(ctx, inp, df, fn, col, got, exp)
     # ties: only the extreme *value* per group is determined
     gv = df[col].loc[got.dropna()].sort_values().reset_index(drop=True)
     ev = df[col].loc[exp.dropna()].sort_values().reset_index(drop=True)
@@ -542,6 +598,10 @@ def case_misc(ctx, inp):
             if model is not None and _same(got, model) is None:
                 sig = SIG_COV_PAIRWISE
         ctx.fail(f"groupby {op} differs from pandas: {why}", sig=sig, observed=str(got)[:300], expected=str(exp)[:300])
+    if kk == "int" and op == "nunique":
+        _lean_nunique(ctx, inp, df, got, exp)
+    if kk == "int" and op in ("cumsum", "cumprod", "cumcount"):
+        _lean_cumulative(ctx, inp, df, got, exp, op)
     ctx.branch(f"misc-{op}-{kk}" + (f"-{method}" if method else ""))
     if any(a == b for a, b in zip(cuts, cuts[1:])):
         ctx.branch(f"misc-{op}-empty-partition")
@@ -551,7 +611,71 @@ def case_misc(ctx, inp):
         ctx.branch(f"misc-{op}-observed=False")
 
 
-CASES = {"agg_model": case_agg_model, "agg_keys": case_agg_keys, "agg_spec": case_agg_spec, "misc": case_misc}
+def case_tree_shape(ctx, inp):
+    """function level: the batches of every level of TreeReduce._layer vs the model's partitionAll tree"""
+    import pandas as pd
+    from dask.dataframe.dask_expr._reductions import TreeReduce
+    n, se = inp["npartitions"], inp["split_every"]
+    df = pd.DataFrame({"c": [i % 3 for i in range(n)], "a": list(range(n))})
+    d = U.frame_from_cuts(df, list(range(n + 1)))
+    x = d.groupby("c").a.sum(**({} if se is None else {"split_every": se}))
+
+    def walk(e):
+        yield e
+        for o in e.dependencies():
+            yield from walk(o)
+    trees = [e for e in walk(x.expr.lower_completely()) if isinstance(e, TreeReduce)]
+    if len(trees) != 1 or trees[0].frame.npartitions != n:
+        ctx.disagree("groupby sum lowers to one TreeReduce over the chunked frame", [1, n],
+                     [len(trees), trees[0].frame.npartitions if trees else None])
+        return
+    levels = {}
+    for key, task in trees[0]._layer().items():
+        if len(key) == 3:
+            batch = task[2][0] if getattr(task[0], "__name__", "") == "apply" else task[1]
+            levels.setdefault(key[1], []).append((key[2], len(batch)))
+    real = [[m for _, m in sorted(levels[j])] for j in sorted(levels)]
+    ctx.eq("TreeReduce._layer batches vs treeLevels", ctx.lean(Sym("tree-levels"), se or 8, n), real)
+    ctx.branch(f"tree-depth-{len(real)}")
+
+
+def case_cum_fn(ctx, inp):
+    """function level: _cum_agg_filled / _cum_agg_aligned vs cumFilled / cumAligned"""
+    import numpy as np
+    import pandas as pd
+    from dask.dataframe.groupby import _cum_agg_aligned, _cum_agg_filled, _cumcount_aggregate
+    from dask.utils import M
+    name = inp["op"]
+    func, initial = {"sum": (M.add, 0), "prod": (M.mul, 1), "count": (_cumcount_aggregate, -1)}[name]
+
+    def series(pairs):
+        return pd.Series([np.nan if v is None else float(v) for _, v in pairs], index=pd.Index([k for k, _ in pairs], dtype="int64"))
+
+    def sx(pairs):
+        return [[k, Sym("none") if v is None else v] for k, v in pairs]
+    a, b = inp["a"], inp["b"]
+    real = _cum_agg_filled(series(a), series(b), func, initial)
+    model = ctx.lean(Sym("cum-filled"), Sym(name), sx(a), sx(b))
+    if (sorted(int(k) for k in real.index) != sorted(r[0] for r in model)
+            or any(not _close(float(r[1]), real.loc[r[0]]) for r in model)):
+        ctx.disagree("_cum_agg_filled vs cumFilled", model, {int(k): float(v) for k, v in real.items()})
+    # aligned: the partition `rows` with its cumulative column, the carried values `a`
+    rows = inp["rows"]
+    part = pd.DataFrame({"a": [np.nan if v is None else float(v) for _, v in rows], "_by_c": [k for k, _ in rows]})
+    g = part.groupby("_by_c").a
+    part["a"] = {"sum": g.cumsum, "prod": g.cumprod, "count": g.cumcount}[name]()
+    real = _cum_agg_aligned(part, series(a), "_by_c", "a", func, initial)
+    model = ctx.lean(Sym("cum-aligned"), Sym(name), sx(rows), sx(a))
+    cells = [None if v != v else float(v) for v in real.tolist()]
+    if len(model) != len(cells) or any((m is None) != (c is None) or (c is not None and not _close(float(m), c))
+                                        for m, c in zip(model, cells)):
+        ctx.disagree("_cum_agg_aligned vs cumAligned", model, cells)
+    ctx.branch(f"cum-fn-{name}")
+    if any(v is None for _, v in a):
+        ctx.branch("cum-fn-carried-value-is-NA")
+
+
+CASES = {"tree_shape": case_tree_shape, "cum_fn": case_cum_fn, "agg_model": case_agg_model, "agg_keys": case_agg_keys, "agg_spec": case_agg_spec, "misc": case_misc}
 
 
 def _rand_frame(rng, keykind="int"):
@@ -652,6 +776,41 @@ def _gen_misc(ctx):
         yield "misc", inp
 
 
+def _gen_function_level(ctx):
+    rng = ctx.rng
+    if ctx.thorough():
+        # exhaustive small space: every (npartitions, split_every) up to 40 x 9
+        for n in range(1, 41):
+            for se in [None] + list(range(2, 10)):
+                yield "tree_shape", {"npartitions": n, "split_every": se}
+    for _ in range(ctx.n(25, 0)):
+        yield "tree_shape", {"npartitions": rng.choice([1, 2, 3, 5, 8, 9, 17, 26, 40]), "split_every": rng.choice([None, 2, 3, 4, 8])}
+    for _ in range(ctx.n(80, 800)):
+        def pairs(p_na=0.25):
+            keys = [k for k in range(5) if rng.random() < 0.6]
+            rng.shuffle(keys)
+            return [[k, None if rng.random() < p_na else rng.randint(-4, 6)] for k in keys]
+        rows = [[rng.randint(0, 4), None if rng.random() < 0.25 else rng.randint(-4, 6)] for _ in range(rng.randint(0, 8))]
+        yield "cum_fn", {"op": rng.choice(["sum", "prod", "count"]), "a": pairs(), "b": pairs(), "rows": rows}
+
+
+def _gen_exhaustive(ctx):
+    """thorough tier: every frame of 3 rows over 2 groups and cells {NA, 1, 2} x every partitioning into non-empty
+    consecutive partitions (plus one with an empty partition), for the operations that have a Lean model of their own"""
+    if not ctx.thorough():
+        return
+    import itertools
+    ops = ["cumsum", "cumprod", "cumcount", "nunique", "idxmin_a", "idxmax_a"]
+    i = 0
+    for c in itertools.product([0, 1], repeat=3):
+        for a in itertools.product([None, 1, 2], repeat=3):
+            for cuts in ([0, 3], [0, 1, 3], [0, 2, 3], [0, 1, 2, 3], [0, 1, 1, 3]):
+                i += 1
+                yield "misc", {"c": list(c), "a": list(a), "cuts": cuts, "keykind": "int", "op": ops[i % len(ops)],
+                               "split_out": [None, 1, 2][i % 3], "split_every": [None, 2][i % 2], "method": "tasks",
+                               "sort": None, "periods": 1}
+
+
 def _interleave(gens):
     """weighted round robin over the streams, so that a deadline cuts all of them proportionally"""
     gens = [(iter(g), w) for g, w in gens]
@@ -666,5 +825,5 @@ def _interleave(gens):
 
 
 def generate(ctx):
-    yield from _interleave([(_gen_agg_model(ctx), 3), (_gen_agg_keys(ctx), 1), (_gen_agg_spec(ctx), 1),
+    yield from _interleave([(_gen_function_level(ctx), 2), (_gen_exhaustive(ctx), 2), (_gen_agg_model(ctx), 3), (_gen_agg_keys(ctx), 1), (_gen_agg_spec(ctx), 1),
                             (_gen_cumulative(ctx), 1), (_gen_misc(ctx), 2)])
